@@ -71,6 +71,10 @@ func (cc *checkCtx) replay(o *Obligation) (string, bool) {
 	} else {
 		rf.ModelNote = "obligation is not a per-function VC (lemma / scan / bounded decider); see solver_output"
 		rf.SolverOut = o.Desc
+		if o.Kind == "bounded" && o.witness != "" {
+			rf.ModelNote = "failing inputs found by exhaustive execution of the real function (bounded decider)"
+			rf.Confirmed = true
+		}
 	}
 	data, _ := json.MarshalIndent(rf, "", " ")
 	os.WriteFile(path, data, 0o644)
